@@ -205,10 +205,15 @@ func (c *Ctx) WantSample() bool {
 	return len(c.samples) < c.maxSamples
 }
 
-func (c *Ctx) Rule(s string)         { c.mu.Lock(); c.rule = s; c.mu.Unlock() }
-func (c *Ctx) Assume(s string)       { c.mu.Lock(); c.assume = append(c.assume, s); c.mu.Unlock() }
-func (c *Ctx) Set(k string, v any)   { c.mu.Lock(); c.extra[k] = v; c.mu.Unlock() }
-func (c *Ctx) Add(k string, n int64) { c.mu.Lock(); a, _ := c.extra[k].(int64); c.extra[k] = a + n; c.mu.Unlock() }
+func (c *Ctx) Rule(s string)       { c.mu.Lock(); c.rule = s; c.mu.Unlock() }
+func (c *Ctx) Assume(s string)     { c.mu.Lock(); c.assume = append(c.assume, s); c.mu.Unlock() }
+func (c *Ctx) Set(k string, v any) { c.mu.Lock(); c.extra[k] = v; c.mu.Unlock() }
+func (c *Ctx) Add(k string, n int64) {
+	c.mu.Lock()
+	a, _ := c.extra[k].(int64)
+	c.extra[k] = a + n
+	c.mu.Unlock()
+}
 
 // Expired reports whether the internal budget is used up; the first call that
 // returns true marks the run as not exhaustive.
@@ -322,6 +327,15 @@ func loadKnown(id string) map[string]string {
 		m[strings.TrimSpace(cls)] = strings.TrimSpace(txt)
 	}
 	return m
+}
+
+// Abort ends the run now with what has been recorded so far (evidence written, VIOLATION
+// lines printed, exit status as usual). For checks whose code under test can be PROVEN not to
+// return (see checks/c45: CPU-time-limited probe in a child process): the run cannot complete
+// normally because the stuck call never comes back. The run is reported as not exhaustive.
+func (c *Ctx) Abort(why string) {
+	c.Capped("run aborted: " + why)
+	os.Exit(c.finish())
 }
 
 func (c *Ctx) finish() int {
